@@ -180,7 +180,7 @@ def main(chk):
     chk.cov["input_distribution"] = hist
     chk.cov["rule"] = ("exhaustive [-9,9]^2 per operator; boundary set (0,+-1..3, 2^k+-1 for k in 31,32,52,53,54,62, "
                        "int64 extremes, +-3037000499/500) squared per operator; a**b for a in [-11,11]+{+-2^31,+-3037000499}, b in [0,70]; "
-                       "seeded random 64-bit / random-magnitude pairs. Each case is run through the built-in called directly and "
+                       "bases 2^k + j (k in 32..62) after the small bases; seeded random 64-bit / random-magnitude pairs. Each case is run through the built-in called directly and "
                        "through parsed source `(a) op (b)`; 8 operators x 8x8 boundary operands also as Int descendants (`Int.bear({}).new`) on both sides "
                        "and on the right only: same value / same error as the plain integers. non-trivial: |a|>1 and |b|>1 (|a|>1 for unary minus); distinct by (op,a,b).")
     for i in (0, len(cases) // 3, len(cases) // 2, len(cases) - 1):
